@@ -45,6 +45,7 @@ JudgeM(e) ==
 Apply(e) ==
   CASE e.a = "run" /\ e.raised = "" -> [n \in DOMAIN held |-> held[n] \cup 0..(e.k - 1)]
     [] e.a = "remove" -> [n \in DOMAIN held \ {e.n} |-> held[n]]
+    [] e.a = "addstore" -> [n \in DOMAIN held \cup {e.n} |-> IF n = e.n THEN {} ELSE held[n]]
     [] OTHER -> held
 
 Step == /\ ~done
